@@ -80,6 +80,10 @@ class SchemaValidator:
                 self._stitch_imported_schemas()
 
             self._collect_actions_and_checkpoints()
+        else:
+            # not a schema object: there is nothing to search for circular dependencies
+            self._action_checkpoint_refs = {}
+            self._checkpoints = {}
 
         self.warnings = []
         self.errors = (
